@@ -593,22 +593,23 @@ func c17RealReaders(cfg Config, reader string, d corpus.Doc, res *ShardResult) (
 		name string
 		r    io.Reader
 		ref  canon.Outcome
+		env  [][2]string // process environment during the call (restored afterwards)
 	}
 	rs := []rr{
-		{"bytes.Reader", bytes.NewReader(d.Data), seekRef},
-		{"strings.Reader", strings.NewReader(string(d.Data)), seekRef},
-		{"bytes.Buffer", bytes.NewBuffer(append([]byte(nil), d.Data...)), plainRef},
-		{"bufio.Reader(bytes.Reader)", bufio.NewReader(bytes.NewReader(d.Data)), bufRef},
-		{"iotest.OneByteReader", iotest.OneByteReader(bytes.NewReader(d.Data)), plainRef},
-		{"iotest.DataErrReader", iotest.DataErrReader(bytes.NewReader(d.Data)), plainRef},
-		{"io.LimitReader", io.LimitReader(bytes.NewReader(d.Data), int64(len(d.Data))), plainRef},
+		{"bytes.Reader", bytes.NewReader(d.Data), seekRef, nil},
+		{"strings.Reader", strings.NewReader(string(d.Data)), seekRef, nil},
+		{"bytes.Buffer", bytes.NewBuffer(append([]byte(nil), d.Data...)), plainRef, nil},
+		{"bufio.Reader(bytes.Reader)", bufio.NewReader(bytes.NewReader(d.Data)), bufRef, nil},
+		{"iotest.OneByteReader", iotest.OneByteReader(bytes.NewReader(d.Data)), plainRef, nil},
+		{"iotest.DataErrReader", iotest.DataErrReader(bytes.NewReader(d.Data)), plainRef, nil},
+		{"io.LimitReader", io.LimitReader(bytes.NewReader(d.Data), int64(len(d.Data))), plainRef, nil},
 	}
 	if f, err := os.CreateTemp(cfg.Scratch, "c17-*.bin"); err == nil {
 		defer os.Remove(f.Name())
 		defer f.Close()
 		if _, err := f.Write(d.Data); err == nil {
 			if _, err := f.Seek(0, io.SeekStart); err == nil {
-				rs = append(rs, rr{"os.File", f, seekRef})
+				rs = append(rs, rr{"os.File", f, seekRef, nil})
 			}
 		}
 	}
@@ -621,21 +622,39 @@ func c17RealReaders(cfg Config, reader string, d corpus.Doc, res *ShardResult) (
 		whole := append(append(append([]byte(nil), prefix...), d.Data...), "junk behind the section"...)
 		br := bytes.NewReader(whole[:len(prefix)+len(d.Data)])
 		if _, err := br.Seek(int64(len(prefix)), io.SeekStart); err == nil {
-			rs = append(rs, rr{"bytes.Reader handed over at offset 2000", br, seekRef})
+			rs = append(rs, rr{"bytes.Reader handed over at offset 2000", br, seekRef, nil})
 		}
-		rs = append(rs, rr{"io.SectionReader", io.NewSectionReader(bytes.NewReader(whole), int64(len(prefix)), int64(len(d.Data))), seekRef})
+		rs = append(rs, rr{"io.SectionReader", io.NewSectionReader(bytes.NewReader(whole), int64(len(prefix)), int64(len(d.Data))), seekRef, nil})
 		if f, err := os.CreateTemp(cfg.Scratch, "c17-*.bin"); err == nil {
 			defer os.Remove(f.Name())
 			defer f.Close()
 			if _, err := f.Write(whole[:len(prefix)+len(d.Data)]); err == nil {
 				if _, err := f.Seek(int64(len(prefix)), io.SeekStart); err == nil {
-					rs = append(rs, rr{"os.File handed over at offset 2000", f, seekRef})
+					rs = append(rs, rr{"os.File handed over at offset 2000", f, seekRef, nil})
 				}
 			}
 		}
 	}
+	// the bytes alone: not the process environment either. A plain source while the temporary directory, the home
+	// directory and the time zone are unusable (a container with a read-only or missing /tmp is not unusual)
+	rs = append(rs, rr{"plain reader in a hostile environment (TMPDIR and HOME missing)", iotest.OneByteReader(bytes.NewReader(d.Data)), plainRef,
+		[][2]string{{"TMPDIR", "/nonexistent-verif/tmp"}, {"HOME", "/nonexistent-verif/home"}, {"TZ", "Nowhere/Invalid"}, {"LANG", "xx_XX"}}})
 	for _, x := range rs {
+		var restore []func()
+		for _, kv := range x.env {
+			old, had := os.LookupEnv(kv[0])
+			k := kv[0]
+			os.Setenv(k, kv[1])
+			if had {
+				restore = append(restore, func() { os.Setenv(k, old) })
+			} else {
+				restore = append(restore, func() { os.Unsetenv(k) })
+			}
+		}
 		o := api.ReadOutcome(reader, x.r)
+		for _, f := range restore {
+			f()
+		}
 		res.Evaluations++
 		res.Probes["real_reader_types"]++
 		res.Note(canon.HashBytes(d.Data), reader, x.name, o.Key())
